@@ -35,6 +35,16 @@ def body_src(body, ind="    ") -> list[str]:
             out += [f"{ind}if c:"] + sub(0)
         elif k == "ifelif":
             out += [f"{ind}if c:"] + sub(0) + [f"{ind}elif d:"] + sub(1) + [f"{ind}else:"] + sub(2)
+        elif k == "tryelse":
+            out += [f"{ind}try:"] + sub(0) + [f"{ind}except Exception:"] + sub(1) + [f"{ind}else:"] + sub(2)
+        elif k == "tryfinally":
+            out += [f"{ind}try:"] + sub(0) + [f"{ind}finally:"] + sub(1)
+        elif k == "forelse":
+            out += [f"{ind}for _ in range(c):"] + sub(0) + [f"{ind}else:"] + sub(1)
+        elif k == "whileelse":
+            out += [f"{ind}while c:"] + sub(0) + [f"{ind}else:"] + sub(1)
+        elif k == "cond3":
+            out.append(f"{ind}return {LEAF_SRC[b[0][0]['v'] - 1]} if c else ({LEAF_SRC[b[1][0]['v'] - 1]} if d else {LEAF_SRC[b[2][0]['v'] - 1]})")
         elif k == "try":
             out += [f"{ind}try:"] + sub(0) + [f"{ind}except Exception:"] + sub(1)
         elif k == "for":
